@@ -77,13 +77,17 @@ class TransactionChangesPlugin(Plugin):
             if not hasattr(entity, '__name__'):
                 breakpoint()
             params = uow.current_transaction.id, str(entity.__name__)
-            changes = session.query(self.model_class).get(params)
+            # The row is written through the version session and flushed
+            # together with the version objects. Left pending in the
+            # application's session it would be lost if the application
+            # rolled back a savepoint before the next flush.
+            changes = uow.version_session.get(self.model_class, params)
             if not changes:
                 changes = self.model_class(
                     transaction_id=uow.current_transaction.id,
                     entity_name=str(entity.__name__)
                 )
-                session.add(changes)
+                uow.version_session.add(changes)
 
     def clear(self):
         self.objects = None
